@@ -130,6 +130,9 @@ type TxSpec struct {
 	Raw    *RawSpec `json:"raw,omitempty"`
 	// Tag is free text for oracles / reports.
 	Tag string `json:"tag,omitempty"`
+	// Skip leaves the entry out of the chain while keeping spec coordinates
+	// stable (metamorphic pairs: the same world with and without an entry).
+	Skip bool `json:"skip,omitempty"`
 }
 
 // RawSpec is an arbitrary entry.
